@@ -499,9 +499,28 @@ Fixpoint nostk (m : ms) : bool * bool :=
   | MOrC l r => (true, snd (nostk l) && (fst (nostk l) || snd (nostk r)))
   | MOrD l r => (fst (nostk l) || fst (nostk r), snd (nostk l) && (fst (nostk l) || snd (nostk r)))
   | MOrI l r => (fst (nostk l) && fst (nostk r), snd (nostk l) && snd (nostk r))
-  | MThresh _ xs =>
-    ((fix go (l : list ms) : bool := match l with [] => false | x :: r => fst (nostk x) || go r end) xs, false)
+  | MThresh k xs =>
+    (* dissatisfaction: some child is never dissatisfied. satisfaction: fewer than k children can
+       ever be satisfied (k <= n: the satisfier satisfies exactly k children) *)
+    ((fix go (l : list ms) : bool := match l with [] => false | x :: r => fst (nostk x) || go r end) xs,
+     (k <=? N.of_nat (length xs))
+     && (N.of_nat ((fix cnt (l : list ms) : nat :=
+                      match l with [] => O | x :: r => Nat.add (if snd (nostk x) then O else 1%nat) (cnt r) end) xs) <? k))
   | _ => (false, false)
+  end.
+
+(* what the constructors and the context rules guarantee and typing does not: Threshold::new's
+   k <= n for thresh, multi_a / sortedmulti_a only in Tapscript *)
+Fixpoint ext_struct_ok (c : xctx) (m : ms) : bool :=
+  match m with
+  | MAlt x | MSwap x | MCheck x | MDupIf x | MVerify x | MNonZero x | MZeroNotEqual x => ext_struct_ok c x
+  | MAndV x y | MAndB x y | MOrB x y | MOrD x y | MOrC x y | MOrI x y => ext_struct_ok c x && ext_struct_ok c y
+  | MAndOr x y z => ext_struct_ok c x && ext_struct_ok c y && ext_struct_ok c z
+  | MThresh k xs =>
+    (k <=? N.of_nat (length xs))
+    && (fix go (l : list ms) : bool := match l with [] => true | x :: r => ext_struct_ok c x && go r end) xs
+  | MMultiA _ _ | MSortedMultiA _ _ => xc_schnorr c
+  | _ => true
   end.
 
 (* [ext_safe fx c m]: every construct whose rule needs a repair is either repaired by [fx] or
